@@ -241,8 +241,7 @@ def splitWsMax : Nat → Bytes → List Bytes
     let r := lstripWs s
     if r.isEmpty then []
     else
-      let p := r.span (fun c => !isWs c)
-      p.1 :: splitWsMax k p.2
+      r.takeWhile (fun c => !isWs c) :: splitWsMax k (r.dropWhile (fun c => !isWs c))
 
 /-- `s.partition(' ')[2]` -/
 def afterFirstSpace : Bytes → Bytes
@@ -277,6 +276,12 @@ def unixPairs (cfg : Cfg) (line : Bytes) (tokens : List Bytes) (typeTok : Bytes)
           | .error e => .error e
           | .ok rs => .ok (⟨fd, cfg.afUnix, t, .path path, .path [], cfg.connNone, pid⟩ :: rs)
 
+/-- `pairs = inodes[inode] if inode in inodes else [(None, -1)]` -/
+def ownerPairs (inodes : Inodes) (inode : Bytes) : List (Option Nat × Int) :=
+  match inodes.lookup inode with
+  | some l => l.map (fun pf => (some pf.1, (pf.2 : Int)))
+  | none => [(none, -1)]
+
 def processUnixLine (cfg : Cfg) (inodes : Inodes) (filterPid : Option Nat) (line : Bytes) :
     Except Exc (List Raw) :=
   let tokens := splitWs line
@@ -286,11 +291,7 @@ def processUnixLine (cfg : Cfg) (inodes : Inodes) (filterPid : Option Nat) (line
   else
   match tokens[cfg.uType]?, tokens[cfg.uInode]? with
   | some typeTok, some inode =>
-    let pairs : List (Option Nat × Int) :=
-      match inodes.lookup inode with
-      | some l => l.map (fun pf => (some pf.1, (pf.2 : Int)))
-      | none => [(none, -1)]
-    unixPairs cfg line tokens typeTok filterPid pairs
+    unixPairs cfg line tokens typeTok filterPid (ownerPairs inodes inode)
   | _, _ => .error .indexError          -- not reachable: the indices are below `unixN`
 
 def processUnixLines (cfg : Cfg) (inodes : Inodes) (filterPid : Option Nat) :
